@@ -169,6 +169,17 @@ b("B52", OWNER, "\t\tif tx.confirmed || tx.tx_type == TxLogEntryType::TxReverted
 b("B53", TX, "\t} else {\n\t\t// nothing names the transaction to cancel\n\t\treturn Err(Error::TransactionDoesntExist(tx_id_string));\n\t}\n", "\t}\n\tif tx_id.is_none() && tx_slate_id.is_none() {\n\t\t// nothing names the transaction to cancel\n\t\treturn Err(Error::TransactionDoesntExist(tx_id_string));\n\t}\n", "cancel_tx: the no-id refusal written as a separate is_none test")
 b("B55", SCAN, "\t\t\t.filter(|o| {\n\t\t\t\to.output.status == OutputStatus::Unconfirmed && !chain_commits.contains(&o.commit)\n\t\t\t})\n", "\t\t\t.filter(|o| o.output.status == OutputStatus::Unconfirmed)\n\t\t\t.filter(|o| !chain_commits.contains(&o.commit))\n", "scan: the selection of stale unconfirmed records written as two filters")
 b("B59", SCAN, "\t\tlet max_child_index = found_parents.entry(deffo.key_id.parent_path()).or_insert(0);\n\t\tif deffo.n_child > *max_child_index {\n\t\t\t*max_child_index = deffo.n_child;\n\t\t}\n", "\t\tlet n_child = deffo.n_child;\n\t\tfound_parents\n\t\t\t.entry(deffo.key_id.parent_path())\n\t\t\t.and_modify(|m| *m = (*m).max(n_child))\n\t\t\t.or_insert(n_child);\n", "scan: running maximum written with entry().and_modify().or_insert()")
+ADDR = "libwallet/src/address.rs"
+SEL2 = "libwallet/src/internal/selection.rs"
+TYPES = "libwallet/src/types.rs"
+b("B60", ADDR, "\tkey_path.depth += 1;\n\tkey_path.path[key_path.depth as usize - 1] = ChildNumber::from(index);", "\tlet slot = key_path.depth as usize;\n\tkey_path.depth += 1;\n\tkey_path.path[slot] = ChildNumber::from(index);", "address key: the slot is read before the depth is raised")
+b("B61", OWNER, "\tupdate_outputs(wallet_inst.clone(), keychain_mask, true, true)?;\n\tlet tip = {", "\t{\n\t\twallet_lock!(wallet_inst, w);\n\t\tlet accounts: Vec<Identifier> = w.acct_path_iter().map(|m| m.path).collect();\n\t\tfor a in accounts.iter() {\n\t\t\tupdater::refresh_outputs(&mut **w, keychain_mask, a, true)?;\n\t\t}\n\t}\n\tlet tip = {", "scan: the refresh of every account written as a loop in scan itself")
+b("B62", CTRL, "\t\tlet req_key = Arc::new(Mutex::new(key.lock().clone()));", "\t\tlet session_key = key.lock().clone();\n\t\tlet req_key = Arc::new(Mutex::new(session_key));", "per-request key: snapshot taken into a local first")
+b("B63", OWNER, "\t\t\t\ttx::cancel_tx(\n\t\t\t\t\t&mut **w,\n\t\t\t\t\tkeychain_mask,\n\t\t\t\t\t&tx.parent_key_id,", "\t\t\t\ttx::cancel_tx(\n\t\t\t\t\t&mut **w,\n\t\t\t\t\tkeychain_mask,\n\t\t\t\t\t&parent_key_id,", "expiry step: the account read when the entries were collected (not the entry's field)")
+b("B64", SEL2, "\t\t\tif batch.get(id, mmr_index).is_ok() {\n\t\t\t\tcontinue;\n\t\t\t}\n", "\t\t\tmatch batch.get(id, mmr_index) {\n\t\t\t\tOk(_) => continue,\n\t\t\t\tErr(_) => {}\n\t\t\t}\n", "reservation: the on-record test written as a match")
+b("B65", OWNER, "\tif slate.state == SlateState::Invoice2 {\n\t\tlet own_invoice = updater::retrieve_txs(&mut *w, None, Some(slate.id), None, None, false)?\n\t\t\t.iter()\n\t\t\t.any(|t| t.tx_type == TxLogEntryType::TxReceived);\n\t\tif !own_invoice {\n\t\t\tlet mut batch = w.batch(keychain_mask)?;\n\t\t\tbatch.delete_private_context(slate.id.as_bytes())?;\n\t\t\tbatch.commit()?;\n\t\t}\n\t}\n\tOk(())\n}", "\tif slate.state != SlateState::Invoice2 {\n\t\treturn Ok(());\n\t}\n\tlet own_invoice = updater::retrieve_txs(&mut *w, None, Some(slate.id), None, None, false)?\n\t\t.iter()\n\t\t.any(|t| t.tx_type == TxLogEntryType::TxReceived);\n\tif !own_invoice {\n\t\tlet mut batch = w.batch(keychain_mask)?;\n\t\tbatch.delete_private_context(slate.id.as_bytes())?;\n\t\tbatch.commit()?;\n\t}\n\tOk(())\n}", "payer context deletion: early return for other states")
+b("B66", TYPES, "\t/// Fee\n\tpub fee: Option<FeeFields>,", "\t/// Fee\n\t#[serde(default)]\n\tpub fee: Option<FeeFields>,", "a serde default added to an optional field of the stored log record")
+
 
 def _apply(mu, repo_copy):
     p = os.path.join(repo_copy, mu["file"])
